@@ -132,6 +132,7 @@ class NumericalPropagator(Propagator):
 
             start = self.orbit.date if start is None else start
             step = self.step if step is None else step
+            kwargs["start"] = start
 
             if isinstance(kwargs["stop"], timedelta):
                 kwargs["stop"] = start + kwargs["stop"]
